@@ -251,7 +251,7 @@ func (x *Exec) enterLoop(fr *frame, li *loopInfo, s *State) *State {
 	if lc != nil {
 		env := x.invEnv(fr, s)
 		for k, inv := range lc.Invariants {
-			x.C.Oblige(fmt.Sprintf("%s#loop%d.inv%d.entry", shortFn(fr.fn), li.ordinal, k), "invariant", pos, inv.Text, s.Reach, env.evalBool(inv.Expr))
+			x.C.Oblige(fmt.Sprintf("%s#loop%d.inv%d.entry", shortFn(fr.fn), li.ordinal, k), "invariant", pos, inv.Text, s.Reach, env.evalGoal(inv.Expr))
 		}
 	}
 	hs := x.loopHavocSet(fr, li)
@@ -316,13 +316,14 @@ func (x *Exec) enterLoop(fr *frame, li *loopInfo, s *State) *State {
 			n.Frontier = nf
 		}
 	}
+	n.IterFrontier = n.Frontier
 	for _, a := range autoInv {
 		x.C.Assume(Implies(n.Reach, riInv(n, a)))
 	}
 	if lc != nil {
 		env := x.invEnv(fr, n)
 		for _, inv := range lc.Invariants {
-			x.C.Assume(Implies(n.Reach, env.evalBool(inv.Expr)))
+			x.C.Assume(Implies(n.Reach, env.evalAssume(inv.Expr)))
 		}
 		if lc.Decreases != nil {
 			v := env.eval(lc.Decreases.Expr)
@@ -354,7 +355,7 @@ func (x *Exec) backEdge(fr *frame, li *loopInfo, s *State, cond Term) {
 	x.oblCount[fmt.Sprintf("%s#be%d", fr.fn, li.ordinal)]++
 	be := x.oblCount[fmt.Sprintf("%s#be%d", fr.fn, li.ordinal)]
 	for k, inv := range lc.Invariants {
-		x.C.Oblige(fmt.Sprintf("%s#loop%d.inv%d.preserved.%d", shortFn(fr.fn), li.ordinal, k, be), "invariant", pos, inv.Text, cond, env.evalBool(inv.Expr))
+		x.C.Oblige(fmt.Sprintf("%s#loop%d.inv%d.preserved.%d", shortFn(fr.fn), li.ordinal, k, be), "invariant", pos, inv.Text, cond, env.evalGoal(inv.Expr))
 	}
 	if lc.Decreases != nil {
 		v0 := fr.variants[li.header][0]
